@@ -1,10 +1,12 @@
 # C06 / C04: MetaStoreUpdate::replace_failed_proxy (src/broker/update.rs), verified modularly:
-# takeover_master is visible only through the contract proved in unit `takeover`; generate_new_free_proxy and
-# get_proxy_by_address by assumed contracts (out of reach).  Ported from design_probes/rp_build.py + rp_post.py.
+# takeover_master is visible only through the contract proved in unit `takeover` (same text, taken from its overlay);
+# generate_new_free_proxy and get_proxy_by_address by assumed contracts (out of reach).
+# Text = real function + rules R1, R-clone + overlay contracts/replace_failed_proxy.overlay.json.
 import re
 import vlib
 from vlib import Undecided
 from units import broker_common, takeover
+
 
 def set_epoch(U):
     S = U.src('src/broker/store.rs')
@@ -12,150 +14,26 @@ def set_epoch(U):
     f.header("    pub fn set_epoch(&mut self, new_epoch: u64)\n        ensures final(self).epoch == new_epoch, final(self).chunks == old(self).chunks, final(self).config == old(self).config, final(self).name == old(self).name")
     return f
 
+
+def function(U):
+    S = U.src('src/broker/update.rs')
+    f = S.fn('replace_failed_proxy')
+    f.r1_logging()
+    f.replace('R-clone', "Some(proxy) => proxy.cluster.clone(),", "Some(proxy) => shim_clone_opt_name(&proxy.cluster),", count=1)
+    f.apply_overlay('replace_failed_proxy')
+    return f
+
+
 def build(U):
     broker_common.head(U)
-    T = takeover.parts(vlib.Unit('takeover-contract-only'))     # contract text of the verified callee
-    S = U.src('src/broker/update.rs')
-    fobj = S.fn('replace_failed_proxy')
-    fobj.r1_logging()
-    f = fobj.text
-    def need(c, what):
-        if not c:
-            raise Undecided('replace_failed_proxy: anchor lost: ' + what)
-    spec='''
-pub struct Proxy { pub x: u8 }
-#[verifier::external_body] fn shim_clone_opt_name(x: &Option<ClusterName>) -> (r: Option<ClusterName>) ensures r == *x { unimplemented!() }
-pub broadcast axiom fn axiom_string_key() ensures #[trigger] vstd::std_specs::hash::obeys_key_model::<String>();
-impl Clone for ProxyResource { #[verifier::external_body] fn clone(&self) -> (r: Self) ensures r == *self { unimplemented!() } }
-impl ClusterStore {
-//@@SET_EPOCH@@
-}
-// address replacement on the first chunk that holds the failed proxy
-pub open spec fn slot_replaced(a: ChunkStore, b: ChunkStore, k: int, n: ProxyResource) -> bool {
-    b.role_position == a.role_position && b.stable_slots == a.stable_slots && b.migrating_slots == a.migrating_slots
-    && b.hosts[k]@ == n.host@ && b.hosts[1 - k] == a.hosts[1 - k]
-    && b.proxy_addresses[k]@ == n.proxy_address@ && b.proxy_addresses[1 - k] == a.proxy_addresses[1 - k]
-    && b.node_addresses[2 * k]@ == n.node_addresses[0]@ && b.node_addresses[2 * k + 1]@ == n.node_addresses[1]@
-    && b.node_addresses[2 * (1 - k)] == a.node_addresses[2 * (1 - k)] && b.node_addresses[2 * (1 - k) + 1] == a.node_addresses[2 * (1 - k) + 1]
-}
-pub open spec fn replaced_post(m: ClusterStore, n: ClusterStore, failed: Seq<char>, res: ProxyResource, e: u64) -> bool {
-    n.epoch == e && n.name == m.name && n.config == m.config && n.chunks@.len() == m.chunks@.len()
-    && (forall|j: int| #![trigger m.chunks@[j]] is_first_hit(m, j, failed) ==> slot_replaced(m.chunks@[j], n.chunks@[j], hit_half(m.chunks@[j], failed), res))
-    && (forall|c: int| 0 <= c < m.chunks@.len() && !is_first_hit(m, c, failed) ==> n.chunks@[c] == #[trigger] m.chunks@[c])
-}
-pub struct MetaStoreQuery<'a> { pub store: &'a MetaStore }
-impl<'a> MetaStoreQuery<'a> {
-    pub fn new(store: &'a MetaStore) -> (r: Self) ensures r.store == store { Self { store } }
-    // out of reach (filter/cloned/group_by): assumed to return Some for a registered address
-    #[verifier::external_body] pub fn get_proxy_by_address(&self, address: &str, migration_limit: u64) -> (r: Option<Proxy>)
-        ensures r is Some <==> exists|k: String| #![trigger self.store.all_proxies@.contains_key(k)] self.store.all_proxies@.contains_key(k) && k@ == address@ { unimplemented!() }
-}
-//@@UPDATE_STRUCT@@
-impl<'a> MetaStoreUpdate<'a> {
-//@@TAKEOVER_CONTRACT@@
-    // out of reach (HashMap<String,Vec<String>> + min_by): assumed contract
-    #[verifier::external_body]
-    fn generate_new_free_proxy(&self, failed_proxy_address: String) -> (r: Result<ProxyResource, MetaStoreError>)
-        ensures r matches Ok(p) ==> old(self.store).all_proxies@.contains_key(p.proxy_address) && old(self.store).all_proxies@[p.proxy_address] == p
-    { unimplemented!() }
-'''
-    contract='''    pub fn replace_failed_proxy(
-        &mut self,
-        failed_proxy_address: String,
-        migration_limit: u64,
-    ) -> (r: Result<Option<Proxy>, MetaStoreError>)
-        requires old(self).store.global_epoch < u64::MAX - 1,
-            vstd::std_specs::hash::obeys_key_model::<String>(), vstd::std_specs::hash::obeys_key_model::<ClusterName>(),
-            vstd::std_specs::hash::obeys_key_model::<(usize, usize)>(),
-        ensures
-            final(self).store.global_epoch >= old(self).store.global_epoch,
-            r matches Ok(Some(_)) ==> {
-                &&& old(self).store.all_proxies@.contains_key(failed_proxy_address)
-                &&& old(self).store.all_proxies@[failed_proxy_address].cluster is Some
-                &&& final(self).store.failed_proxies@.contains(failed_proxy_address)
-                &&& final(self).store.global_epoch == old(self).store.global_epoch + 2
-                &&& {
-                    let cn = old(self).store.all_proxies@[failed_proxy_address].cluster->Some_0;
-                    old(self).store.clusters@.contains_key(cn) && final(self).store.clusters@.contains_key(cn)
-                    && final(self).store.clusters@[cn].epoch == final(self).store.global_epoch
-                    && exists|mid: ClusterStore, res: ProxyResource|
-                        takeover_post(old(self).store.clusters@[cn], mid, failed_proxy_address@, (old(self).store.global_epoch + 1) as u64)
-                        && replaced_post(mid, final(self).store.clusters@[cn], failed_proxy_address@, res, final(self).store.global_epoch)
-                }
-            },
-'''
-    body = f[f.index(') -> Result<Option<Proxy>, MetaStoreError> {') + len(') -> Result<Option<Proxy>, MetaStoreError> '):]
-    need("Some(proxy) => proxy.cluster.clone()," in body, 'proxy.cluster.clone()')
-    body = body.replace("Some(proxy) => proxy.cluster.clone(),", "Some(proxy) => shim_clone_opt_name(&proxy.cluster),")
-    se = set_epoch(U)
-    spec = spec.replace('//@@SET_EPOCH@@', se.text)
+    T = takeover.parts(vlib.Unit('takeover-contract-only'))
+    types = broker_common.types(U)
+    spec = open(vlib.VERIF + '/verus/replace_proxy_spec.rs').read()
+    spec = spec.replace('//@@SET_EPOCH@@', set_epoch(U).text)
     spec = spec.replace('//@@UPDATE_STRUCT@@', takeover.UPDATE_STRUCT)
     spec = spec.replace('//@@TAKEOVER_CONTRACT@@', "    // verified in unit `takeover`; here only its contract is visible\n    #[verifier::external_body]\n" + T['contract'] + "    { unimplemented!() }\n")
-    types = broker_common.types(U).replace("impl Clone for ProxyResource { #[verifier::external_body] fn clone(&self) -> Self { unimplemented!() } }\n", "")
-    s = types + T['specs'] + spec + contract + body + "\n}\n"
-    def must(old, new, count=1):
-        nonlocal s
-        need(s.count(old) >= 1, old[:70])
-        s = s.replace(old, new, count)
-    # trusted: &String deref'd to &str designates the same key
-    # hints
-    must("        self.takeover_master(&cluster_name, failed_proxy_address.clone())?;","        let ghost g0 = self.store.global_epoch;\n        let ghost oc = self.store.clusters@[cluster_name];\n        self.takeover_master(&cluster_name, failed_proxy_address.clone())?;\n        let ghost mid = self.store.clusters@[cluster_name];")
-    must("            let cluster = self\n                .store\n                .clusters\n                .get_mut(&cluster_name)","            proof { axiom_key_of_same::<ClusterName>(&cluster_name); }\n            let ghost map0 = self.store.clusters@;\n            let cluster = self\n                .store\n                .clusters\n                .get_mut(&cluster_name)")
-    must("            for chunk in cluster.chunks.iter_mut() {\n                if chunk.proxy_addresses[0] == failed_proxy_address {\n                    chunk.hosts[0]","""            let ghost mc = *cluster;
-            let ghost mut hit_idx: int = -1;
-            broadcast use axiom_iter_mut_has_resolved;
-            for chunk in it: cluster.chunks.iter_mut()
-                invariant_except_break
-                    hit_idx == -1,
-                    forall|i: int| 0 <= i < it.index@ ==> !is_hit(mc.chunks@[i], failed_proxy_address@),
-                invariant
-                    it.seq().len() == mc.chunks@.len(),
-                    forall|i: int| 0 <= i < it.seq().len() ==> *(#[trigger] it.seq()[i]) == mc.chunks@[i],
-                    forall|i: int| 0 <= i < it.index@ - 1 ==> !is_hit(mc.chunks@[i], failed_proxy_address@),
-                    forall|i: int| 0 <= i < it.index@ && !is_hit(mc.chunks@[i], failed_proxy_address@) ==> *final(#[trigger] it.seq()[i]) == mc.chunks@[i],
-                    forall|i: int| 0 <= i < it.index@ && is_hit(mc.chunks@[i], failed_proxy_address@) ==> slot_replaced(mc.chunks@[i], *final(#[trigger] it.seq()[i]), hit_half(mc.chunks@[i], failed_proxy_address@), proxy_resource),
-                ensures
-                    hit_idx == -1 ==> it.index@ == it.seq().len() && forall|i: int| 0 <= i < it.seq().len() ==> !is_hit(#[trigger] mc.chunks@[i], failed_proxy_address@),
-                    hit_idx != -1 ==> hit_idx == it.index@ - 1 && 0 <= hit_idx < it.seq().len() && is_hit(mc.chunks@[hit_idx], failed_proxy_address@),
-            {
-                if chunk.proxy_addresses[0] == failed_proxy_address {
-                    chunk.hosts[0]""")
-    s=s.replace("                    chunk.node_addresses[1] = proxy_resource.node_addresses[1].clone();\n                    break;","                    chunk.node_addresses[1] = proxy_resource.node_addresses[1].clone();\n                    proof { hit_idx = it.index@; }\n                    break;")
-    s=s.replace("                    chunk.node_addresses[3] = proxy_resource.node_addresses[1].clone();\n                    break;","                    chunk.node_addresses[3] = proxy_resource.node_addresses[1].clone();\n                    proof { hit_idx = it.index@; }\n                    break;")
-    must("            cluster.set_epoch(new_epoch);\n","""            cluster.set_epoch(new_epoch);
-            proof {
-                let fa = failed_proxy_address@;
-                assert(cluster.chunks@.len() == mc.chunks@.len());
-                if hit_idx == -1 {
-                    assert forall|c: int| 0 <= c < mc.chunks@.len() implies cluster.chunks@[c] == #[trigger] mc.chunks@[c] by {}
-                } else {
-                    assert(is_first_hit(mc, hit_idx, fa));
-                    assert forall|j: int| is_first_hit(mc, j, fa) implies j == hit_idx by {}
-                    assert forall|c: int| 0 <= c < mc.chunks@.len() && c != hit_idx implies cluster.chunks@[c] == #[trigger] mc.chunks@[c] by {}
-                }
-                assert(replaced_post(mc, *cluster, fa, proxy_resource, new_epoch));
-            }
-""")
-    must("        let proxy = MetaStoreQuery::new(self.store)","        proof { assert(self.store.all_proxies@.contains_key(proxy_resource.proxy_address)); }\n        let proxy = MetaStoreQuery::new(self.store)")
-
-    must("        Ok(Some(proxy))\n","""        proof {
-            let cn = cluster_name;
-            assert(old(self).store.all_proxies@.contains_key(failed_proxy_address));
-            assert(old(self).store.all_proxies@[failed_proxy_address].cluster == Some(cn));
-            assert(self.store.failed_proxies@.contains(failed_proxy_address));
-            assert(self.store.global_epoch == old(self).store.global_epoch + 2);
-            assert(old(self).store.clusters@.contains_key(cn));
-            assert(self.store.clusters@.contains_key(cn));
-            assert(self.store.clusters@[cn].epoch == self.store.global_epoch);
-            assert(takeover_post(old(self).store.clusters@[cn], mid, failed_proxy_address@, (old(self).store.global_epoch + 1) as u64));
-            assert(replaced_post(mid, self.store.clusters@[cn], failed_proxy_address@, proxy_resource, self.store.global_epoch));
-        }
-        Ok(Some(proxy))
-""")
-    U.log.rule('R-clone', fobj, 'proxy.cluster.clone() -> shim_clone_opt_name (structural clone of Option<ClusterName>)')
-    U.log.rule('overlay', fobj, '1 loop spec, ghost snapshots, proof hints anchored on source text')
-    fobj.text = s
-    U.add_fn(fobj)
-    U.add("} // verus!\nfn main() {}\n")
+    U.add(types + T['specs'] + spec)
+    U.add_fn(function(U))
+    U.add("}\n} // verus!\nfn main() {}\n")
     U.trust('generate_new_free_proxy by assumed contract (returns a registered ProxyResource); get_proxy_by_address by assumed contract (Some iff registered)',
             'derived Clone of ProxyResource / Option<ClusterName> is structural')
